@@ -206,3 +206,5 @@ def control_permit_clone(ctx):
 
 
 CONTROLS = [control_forget, control_permit_clone]
+
+WITNESSES = {"C11StateNeedsPermit": ("E0061", "ConnectionState::new requires an owned permit")}
